@@ -173,17 +173,16 @@ def run(ctx):
     if r0 != [] or r1 != [7] or r2 != [1, 2] or calls != [2]:
         ctx.violation('sorted-short-lists', {'sorted([])': r0, 'sorted([7])': r1, 'sorted([2,1])': r2, '_sort calls': calls})
     nets[0], nets[1] = [], []
-    # compact injective encoding of a comparator list (i, j < 64) as one number: printing 15000 pairs is slow
-    preamble = ('Definition enc_net (l : list (nat * nat)) : N := fold_left (fun acc c => '
-                '(acc * 8192 + (N.of_nat (fst c) * 64 + N.of_nat (snd c) + 1))%N) l 0%N.\n')
-    exprs = ['map (fun n => option_map enc_net (merge_exchange_opt n)) (seq 0 %d)' % (NMAX + 1)]
-    meta = [('nets',)]
-
-    def enc_net(net):
-        acc = 0
-        for i, j in net:
-            acc = acc * 8192 + (i * 64 + j + 1)
-        return acc
+    # the comparison is done inside Coq (printing 15000 pairs through Coq's pretty-printer is slow):
+    # comparator (i, j) is passed as the number 64*i + j  (i, j < 64... NMAX = 64 so j <= 63)
+    preamble = ('Definition eqnet (a : option (list (nat * nat))) (b : list N) : bool := match a with '
+                '| Some l => if list_eq_dec N.eq_dec (map (fun c => (N.of_nat (fst c) * 64 + N.of_nat (snd c))%N) l) b '
+                'then true else false | None => false end.\n')
+    exprs, meta = [], []
+    for n in range(0, NMAX + 1):
+        assert all(0 <= i < 64 and 0 <= j < 64 for i, j in nets[n])
+        exprs.append('eqnet (merge_exchange_opt %s) [%s]%%N' % (natlit(n), '; '.join(str(i * 64 + j) for i, j in nets[n])))
+        meta.append(('net', n))
 
     # ------------------------------------------------------------------ (b) 0/1 inputs
     # real _sort on every 0/1 vector (plain ints: `<` gives a bool, if_swap is arithmetic)
@@ -418,14 +417,13 @@ def run(ctx):
                 mism += 1
                 ctx.broken.append({'kind': 'correspondence', 'what': 'coq evaluation failed', 'case': str(mt)[:300], 'detail': r[1]})
                 continue
-            if mt[0] == 'nets':
-                for n in range(0, NMAX + 1):
-                    m = opt(r[n])
-                    if m != enc_net(nets[n]):
-                        mism += 1
-                        ctx.broken.append({'kind': 'correspondence', 'what': 'comparator sequence (encoded)', 'n': n,
-                                           'model': str(m)[:300], 'impl': str(enc_net(nets[n]))[:300]})
-                    ctx.case({'net': n}, nontrivial=n >= 2, kind='comparator sequence vs Coq')
+            if mt[0] == 'net':
+                n = mt[1]
+                if r is not True:
+                    mism += 1
+                    ctx.broken.append({'kind': 'correspondence', 'what': 'comparator sequence of _sort differs from merge_exchange_opt',
+                                       'n': n, 'impl': str(nets[n])[:400]})
+                ctx.case({'net': n}, nontrivial=n >= 2, kind='comparator sequence vs Coq')
             elif mt[0] == 'apply':
                 if r != mt[2]:
                     mism += 1
@@ -450,7 +448,7 @@ def run(ctx):
                 if m != mt[2]:
                     mism += 1
                     ctx.broken.append({'kind': 'correspondence', 'what': mt[1]['fn'] + ' on pairs', 'case': mt[1], 'model': str(m), 'impl': str(mt[2])})
-        ctx.extra['traces_validated_against_impl'] = len(exprs) + NMAX - mism
+        ctx.extra['traces_validated_against_impl'] = len(exprs) - mism
         ctx.log('model/implementation disagreements: %d' % mism)
     if ctx.broken and not ctx.violations:
         ctx.unproved('C29 model/proof', {'broken': ctx.broken[:5]})
